@@ -1060,9 +1060,12 @@ class SortValues(BaseSetIndexSortValues):
     def _simplify_up(self, parent, dependents):
         from dask_expr._expr import Filter, Head, Tail
 
-        # NFirst / NLast sort with the default na_position and sort function
+        # NFirst / NLast sort with the default na_position and sort function,
+        # and keep the index
         plain_sort = (
-            self.na_position == "last" and self.operand("sort_function") is None
+            self.na_position == "last"
+            and self.operand("sort_function") is None
+            and not self.ignore_index
         )
         if isinstance(parent, Head) and plain_sort:
             return NFirst(
